@@ -527,6 +527,10 @@ pub fn namespace_programs() -> Vec<(String, Vec<(String, Module)>)> {
                 if shadow == 2 {
                     items.push(Item::Fn { public: false, external: false, target: None, name: c.mark("m"), params: vec![], ret: None, body: Some(vec![Stmt::Expr(Expr::Int("0".into()))]) });
                 }
+                // constant initialisers: `m.A` is a module access whatever else is called `m`
+                for n in 0..2 {
+                    items.push(Item::Const { public: false, name: c.mark(["ka", "kb"][n]), ann: None, value: Expr::Field(Box::new(Expr::Var(c.mark("m"))), c.mark(N[n])) });
+                }
                 let mut body = vec![];
                 for n in 0..2 {
                     body.push(Stmt::Expr(Expr::Ctor(c.mark(N[n]))));
@@ -575,7 +579,7 @@ fn namespace_layer(rep: &mut Report) {
             rep.violation(x);
         }
     }
-    l.bound = format!("{} programs: every layout of 1-2 public type-level declarations in the exporting module (custom type with one constructor / alias; type, alias and constructor names from {{A, B}}, all orders) x 17 import forms (plain, `type`, both in either order, `as`, mixed) x no local type or a local `type L {{ C }}` (names from {{A, B}}; combinations Gleam itself rejects as duplicate are skipped) x {{nothing, a parameter, a function}} spelled like the module accessor - each with value, pattern, annotation and module-qualified uses of both spellings", progs.len());
+    l.bound = format!("{} programs: every layout of 1-2 public type-level declarations in the exporting module (custom type with one constructor / alias; type, alias and constructor names from {{A, B}}, all orders) x 17 import forms (plain, `type`, both in either order, `as`, mixed) x no local type or a local `type L {{ C }}` (names from {{A, B}}; combinations Gleam itself rejects as duplicate are skipped) x {{nothing, a parameter, a function}} spelled like the module accessor - each with value, pattern, annotation, module-qualified and constant-initialiser uses of both spellings", progs.len());
     rep.layer(l);
 }
 
